@@ -9,7 +9,7 @@ ENTRY = dict(
          "session: type, version, length, explicit nonce of every record the client wrote vs the model. TLS 1.3 additionally against "
          "the uTLS server (it has the hooks): histories of 8 (thorough 24) key updates alternating peer/client, random "
          "update_requested, data both ways after each; zero-length application data records interleaved with data (> 40 in total, "
-         "runs up to 32). Tampering on live sessions: bit flip in body / first header / dropped byte (3 per pair, thorough 12), TLS "
+         "runs up to 24). Tampering on live sessions: bit flip in body / first header / dropped byte (3 per pair, thorough 12), TLS "
          "1.3 record truncated to 0,1,15..18,40 bytes (thorough 0..63). Record level on forged connections (fresh receiver per "
          "experiment, UConn.Read, panic = failure) for EVERY suite of the table incl. the weak CBC suites x versions 1.0-1.2: the first "
          "record truncated to every shorter length (header adjusted), the stream cut at every offset, one bit flipped at every byte; "
